@@ -167,4 +167,6 @@ def render_step(st):
 def render_act(a):
     if a["k"] == "obs":
         return "obs " + render_step(a["step"]) + (f" !alloc-fail@{a['fail_alloc']}" if a.get("fail_alloc") is not None else "")
+    if a["k"] == "ballast":
+        return f"ballast({a['n']} live arrays with unread selections)"
     return f"{a['k']}({a['v']})"
